@@ -19,18 +19,19 @@ Record RS (s : state) : Prop := mkRS {
              (exists l k, tpc (th s t) = PLockSlept l k /\ wk (th s t) = WHandoff);
   rs_to : forall t c l, tpc (th s t) = PWaitSlept c l -> wk (th s t) = WTimeout -> ts (th s t) <= now s;
   rs_e0 : forall t c l, tpc (th s t) = PWaitSlept c l -> err (th s t) = 0 ->
-             wk (th s t) = WNone \/ wk (th s t) = WTimeout
+             wk (th s t) = WNone \/ wk (th s t) = WTimeout;
+  rs_now : now s <= MAX64
 }.
 
 (* frame: control/ghost fields unchanged, threads only stop SLEEPING, queues only shrink, time only grows *)
 Definition rs_mono (s s' : state) : Prop :=
   (forall y, tpc (th s' y) = tpc (th s y) /\ wk (th s' y) = wk (th s y) /\ err (th s' y) = err (th s y) /\
              ts (th s' y) = ts (th s y) /\ (st (th s' y) = SLEEPING -> st (th s y) = SLEEPING)) /\
-  (forall q y, In y (wqs s' q) -> In y (wqs s q)) /\ now s <= now s'.
-Lemma rm_refl s : rs_mono s s. Proof. repeat split; auto. lia. Qed.
+  (forall q y, In y (wqs s' q) -> In y (wqs s q)) /\ now s' = now s.
+Lemma rm_refl s : rs_mono s s. Proof. repeat split; auto. Qed.
 Lemma rm_trans a b c : rs_mono a b -> rs_mono b c -> rs_mono a c.
 Proof.
-  intros (A1 & A2 & A3) (B1 & B2 & B3). split; [|split]; [|auto|lia].
+  intros (A1 & A2 & A3) (B1 & B2 & B3). split; [|split]; [|auto|congruence].
   intros y. destruct (A1 y) as (a1 & a2 & a3 & a4 & a5), (B1 y) as (b1 & b2 & b3 & b4 & b5).
   repeat split; try congruence. auto.
 Qed.
@@ -42,26 +43,29 @@ Proof.
   - intros t H. destruct (A1 t) as (_ & -> & _ & _ & E). apply (rs_sl s R). auto.
   - intros t H. destruct (A1 t) as (-> & -> & E & _). rewrite E in H. now apply (rs_err s R).
   - intros t c l H1 H2. destruct (A1 t) as (E1 & E2 & _ & E4 & _). rewrite E1 in H1. rewrite E2 in H2. rewrite E4.
-    pose proof (rs_to s R _ _ _ H1 H2). lia.
+    rewrite A3. exact (rs_to s R _ _ _ H1 H2).
   - intros t c l H1 H2. destruct (A1 t) as (E1 & E2 & E3 & _). rewrite E1 in H1. rewrite E3 in H2. rewrite E2.
     eapply (rs_e0 s R); eauto.
+  - rewrite A3. apply (rs_now s R).
 Qed.
 
 Definition rkeeps (f : thr -> thr) : Prop :=
   forall r, tpc (f r) = tpc r /\ wk (f r) = wk r /\ err (f r) = err r /\ ts (f r) = ts r /\ (st (f r) = SLEEPING -> st r = SLEEPING).
 Lemma rm_updT s t f : rkeeps f -> rs_mono s (updT s t f).
 Proof.
-  intros K. split; [|split]; [|auto|simpl; lia]. intros y. rewrite th_updT. destruct (Nat.eqb y t) eqn:E.
+  intros K. split; [|split]; [|auto|reflexivity]. intros y. rewrite th_updT. destruct (Nat.eqb y t) eqn:E.
   - apply Nat.eqb_eq in E. subst. apply K.
   - repeat split; auto.
 Qed.
-Lemma rm_updV s v g : rs_mono s (updV s v g). Proof. split; [|split]; [|auto|simpl; lia]. intros y. repeat split; auto. Qed.
-Lemma rm_lown s f : rs_mono s (s_lown s f). Proof. split; [|split]; [|auto|simpl; lia]. intros y. repeat split; auto. Qed.
-Lemma rm_bad s : rs_mono s (s_bad s). Proof. split; [|split]; [|auto|simpl; lia]. intros y. repeat split; auto. Qed.
-Lemma rm_tick s d : rs_mono s (tick s d).
+Lemma rm_updV s v g : rs_mono s (updV s v g). Proof. split; [|split]; [|auto|reflexivity]. intros y. repeat split; auto. Qed.
+Lemma rm_lown s f : rs_mono s (s_lown s f). Proof. split; [|split]; [|auto|reflexivity]. intros y. repeat split; auto. Qed.
+Lemma rm_bad s : rs_mono s (s_bad s). Proof. split; [|split]; [|auto|reflexivity]. intros y. repeat split; auto. Qed.
+Lemma RS_tick s d : RS s -> RS (tick s d).
 Proof.
-  split; [|split]; [|auto|]. intros y. repeat split; auto.
-  unfold tick. simpl. unfold sat_add. destruct (MAX64 <? now s + Z.max 0 d) eqn:E; [|lia].
-  (* now never exceeds MAX64 only if it started below: use the weaker bound *)
-  apply Z.ltb_lt in E. destruct (Z.le_gt_cases (now s) MAX64); [auto|]. lia.
-Abort.
+  intros R. pose proof (rs_now s R) as Hn.
+  assert (Hm : now s <= now (tick s d) <= MAX64).
+  { unfold tick. simpl. unfold sat_add. destruct (MAX64 <? now s + Z.max 0 d) eqn:E; [lia|]. apply Z.ltb_ge in E. lia. }
+  constructor; try (intros; first [eapply (rs_cv s R)|eapply (rs_mx s R)|eapply (rs_sl s R)|eapply (rs_err s R)|eapply (rs_e0 s R)]; eauto; fail).
+  - intros t c l H1 H2. pose proof (rs_to s R _ _ _ H1 H2). change (ts (th (tick s d) t)) with (ts (th s t)). lia.
+  - lia.
+Qed.
